@@ -483,6 +483,10 @@ def gen_cases(tier, seed):
             c["holidays"] = ["2020-01-%02d" % rnd.randint(8, 14)]
         cur = dtm.datetime(2020, 1, rnd.randint(6, 12), rnd.randint(0, 23), rnd.choice([0, 30, 59]), rnd.choice([0, 0, 30]))
         yield {"k": "toend", "cur": cur.isoformat(), "cst": c}
+    # (I) the window table as PeakLoadWindow.__init__ derives it from the file's text (conversion, year replacement,
+    # connector defaults) and the other strategy constructors: harness/s_init.py, Model/StratInit.lean
+    import s_init
+    yield from s_init.init_cases(tier, seed)
     # malformed stream: only error kinds are compared
     bad_t = [[24, 0], [23, 60], [-1, 0], [1, 2, 60], [1, 2, 3, 1000000], [1, 2, 3, 4, 5], [25, 0, 0, 0, 5], [1, 2, 3, 4, 5, 6]]
     for _ in range(80 if not thorough else 1500):
@@ -528,6 +532,9 @@ def compare(case, impl, model):
     if impl == model:
         return None
     k = case["k"]
+    if k == "init":
+        import s_init
+        return s_init.compare(case, impl, model)
     if k == "core" and len(impl) == len(model):
         c = case["cst"]
         if case.get("bad"):
@@ -564,6 +571,9 @@ def _parse_dt(s):
 def eval_case(case):
     from spice_ev import util
     k = case["k"]
+    if k == "init":
+        import s_init
+        return s_init.eval_any(case)
     viol, stats = [], [k]
     if k == "parts":
         d = _parse_dt(case["dt"])
